@@ -22,12 +22,17 @@ Values == {"65535", "0", "1", "f-1", "f+1", "2^31", "2^32", "2^62", "2^63", "2^6
 \* PAR2 numeric fields
 P2Fields == {"main.slice_size", "main.slice_size_1pair", "main.nrecv", "fd.length", "ifsc.npairs", "recv.exp", "recv.datalen"}
 \* structural mutations
+\* an optional packet (comment, Unicode file name, input file slice checksum, packed main / recovery slice) in one of
+\* 15 shapes is added after the creator packet of every file: still a valid set
+OptPackets == {"opt.1", "opt.2", "opt.3", "opt.4", "opt.5", "opt.6", "opt.7", "opt.8", "opt.9", "opt.10", "opt.11", "opt.12",
+               "opt.13", "opt.14", "opt.15"}
 P2Struct == {"remove.creator", "remove.main", "remove.fd", "remove.ifsc", "remove.recv",
              "dup.creator", "dup.main", "dup.fd", "dup.ifsc", "dup.recv",
              "ids.dup", "ids.unsorted", "ids.extra", "ids.missing", "fd.hash", "fd.hash16k", "fd.name_empty", "fd.name_long",
              "recv.data_short", "recv.data_long", "recv.data_wrong",
              "recv.exps_vdm_singular",
-             "creator.body_empty", "creator.body_padding", "creator.body_blank"}   \* exponents relabelled {0, 21845, 43690}: singular for the slices 0 and 2 (constants 2^1, 2^4)
+             "creator.body_empty", "creator.body_padding", "creator.body_blank"}
+             \cup OptPackets   \* exponents relabelled {0, 21845, 43690}: singular for the slices 0 and 2 (constants 2^1, 2^4)
 P1Fields == {"hdr.volume", "hdr.file_count", "hdr.list_offset", "hdr.list_bytes", "hdr.data_offset", "hdr.data_bytes", "hdr.version",
              "ent.entry_bytes", "ent.status", "ent.file_bytes"}
 P1Struct == {"ent.hash", "ent.hash16k", "vol.data_short", "vol.data_long", "vol.number_swapped", "set.256_entries", "set.255_entries", "set.257_entries", "set.300_entries",
@@ -61,6 +66,7 @@ ValidMut(m) ==
   \* a set of 255 (resp. 256) genuine entries is a valid PAR1 set
   \/ m.kind = "struct" /\ m.field \in {"set.255_entries", "set.256_entries"}
   \/ m.kind = "struct" /\ m.field \in {"dup.creator", "dup.main", "dup.fd", "dup.ifsc", "dup.recv"}
+  \/ m.kind = "struct" /\ m.field \in OptPackets
   \/ m.kind = "struct" /\ m.field = "remove.recv"              \* fewer recovery blocks: still a valid set
   \* volumes need not repeat main / file description / checksum packets (a creator is required in every file)
   \/ m.kind = "struct" /\ m.field \in {"remove.main", "remove.fd", "remove.ifsc"} /\ m.where = "volume"
